@@ -938,6 +938,11 @@ func (t *Tree) computeDepthRecurRooted(n *Node, prev *Node, br *Edge, rootdepth 
 
 // Recursive function to compute depths for an unrooted tree
 func (t *Tree) computeDepthUnRooted() {
+	// Depths computed earlier (before an edit of the tree, or while it was rooted) are forgotten first:
+	// the loop below only fills the nodes whose depth is not yet computed
+	for _, n := range t.Nodes() {
+		n.depth = NIL_DEPTH
+	}
 	nodes := t.Tips()
 	currentlevel := 0
 	nbchanged := 1
